@@ -1792,6 +1792,8 @@ def GET_EYE(
 
     # Within the 10% of the data in the center of the eye diagram, we separate into two clusters top and bottom
     y_center = find_nearest(y_set, (state_0 + state_1) / 2)
+    # the time axis spans two slots: the center of the other slot (one slot away from `t_center`) belongs to the eye center too
+    in_span = np.abs((t - t_center + 0.5) % 1 - 0.5) < 0.05 * t_dist
 
     # We obtain the optimum time for down sampling
     if sps_resamp:
@@ -1802,13 +1804,13 @@ def GET_EYE(
     eye_dict["i"] = instant
 
     # We obtain the upper cluster
-    cond = (input > y_center) & ((t_span0 < t) & (t < t_span1))
+    cond = (input > y_center) & in_span
     y_top = input.copy()
     y_top[~cond]=np.nan
     eye_dict["y_top"] = y_top
 
     # We obtain the lower cluster
-    cond = (input < y_center) & ((t_span0 < t) & (t < t_span1))
+    cond = (input < y_center) & in_span
     y_bot = input.copy()
     y_bot[~cond]=np.nan
     eye_dict["y_bot"] = y_bot
@@ -1821,7 +1823,7 @@ def GET_EYE(
 
     # compute umbral
     x = np.linspace(mu0, mu1, 500)
-    y = input[ ((t_span0 < t) & (t < t_span1)) ]
+    y = input[in_span]
     
     try:
         pdf = gaussian_kde(y).evaluate(x)
